@@ -1,6 +1,7 @@
 package rules
 
 import (
+	"fmt"
 	"go/ast"
 	"go/constant"
 	"go/token"
@@ -78,6 +79,10 @@ func c03(w *core.World, r *core.Report) {
 	ruleRestoreChoiceAgrees(w, r)
 	r.Rule("R03.10", "chunks of a split value are appended: probe and DEL only before the first chunk", 1)
 	ruleChunksAppend(w, r)
+	r.Rule("R03.11", "listpack entry stepping: back-length size table and per-encoding header sizes equal the published format", 2)
+	ruleListpackStep(w, r)
+	r.Rule("R03.12", "the database an entry is replayed into: tracked database starts unknown/fresh, changes only with selectDB's result, and every change is sent to the target before the next entry (shared with R01.6)", 4)
+	ruleDbTracking(w, r)
 }
 
 func ruleTypeTables(w *core.World, r *core.Report) {
@@ -434,9 +439,32 @@ func ruleSignedInts(w *core.World, r *core.Report) {
 	if f := fn(w, r, "(*pkg/redis/types.Listpack).Next"); f != nil {
 		width := map[[2]int64]int{{0xE0, 0xC0}: 13, {0xFF, 0xF1}: 16, {0xFF, 0xF2}: 24, {0xFF, 0xF3}: 32, {0xFF, 0xF4}: 64}
 		got := map[int]map[string]uint64{}
+		// roles, not names: the sign threshold is the right operand of `u >= T`,
+		// the maximum the left operand of `M - u` on the same u.
+		role := map[*ssa.Phi]string{}
+		for _, in := range core.Instrs(f) {
+			ge, ok := in.(*ssa.BinOp)
+			if !ok || ge.Op != token.GEQ {
+				continue
+			}
+			th, ok := ge.Y.(*ssa.Phi)
+			if !ok {
+				continue
+			}
+			for _, in2 := range core.Instrs(f) {
+				sub, ok := in2.(*ssa.BinOp)
+				if !ok || sub.Op != token.SUB || sub.Y != ge.X {
+					continue
+				}
+				if mx, ok := sub.X.(*ssa.Phi); ok {
+					role[th] = "negstart"
+					role[mx] = "negmax"
+				}
+			}
+		}
 		for _, in := range core.Instrs(f) {
 			ph, ok := in.(*ssa.Phi)
-			if !ok || (ph.Comment != "negstart" && ph.Comment != "negmax") {
+			if !ok || role[ph] == "" {
 				continue
 			}
 			for i, e := range ph.Edges {
@@ -464,7 +492,7 @@ func ruleSignedInts(w *core.World, r *core.Report) {
 							got[wd] = map[string]uint64{}
 						}
 						u, _ := constant.Uint64Val(c.Value)
-						got[wd][ph.Comment] = u
+						got[wd][role[ph]] = u
 					}
 				}
 			}
@@ -774,4 +802,157 @@ func ruleChunksAppend(w *core.World, r *core.Report) {
 		}
 	})
 	r.Check(bad == "" && n > 0, "Replay/chunks-append", badPos, "%s", bad)
+}
+
+// ---------------------------------------------------------------- R03.11 listpack entry stepping
+
+// ruleListpackStep: Listpack.Next steps over an entry by header+payload+back
+// length. Both tables are published constants of the listpack format
+// (listpack.c): the back-length size by total entry size, and the header size
+// by encoding.
+func ruleListpackStep(w *core.World, r *core.Report) {
+	if f := fn(w, r, "pkg/redis/types.lpEncodeBacklen"); f != nil && len(f.Params) == 1 {
+		p := f.Params[0]
+		type piece struct {
+			lo, hi uint64
+			k      int64
+		}
+		var got []piece
+		undec := ""
+		core.EnumPaths(f.Blocks[0], 0, 1000, func(pt *core.Path) {
+			ret, ok := pt.End.(*ssa.Return)
+			if !ok || len(ret.Results) != 1 {
+				return
+			}
+			lo, hi := uint64(0), uint64(1)<<32-1
+			for _, fct := range pt.Conds {
+				c, ok := core.AsCmp(fct.Cond, fct.Val)
+				if !ok || core.Unwrap(c.X) != ssa.Value(p) {
+					undec = "a branch of the back-length function is not a comparison of its argument with a constant"
+					return
+				}
+				k, ok := core.ConstInt(c.Y)
+				if !ok || k < 0 {
+					undec = "a branch of the back-length function is not a comparison of its argument with a constant"
+					return
+				}
+				u := uint64(k)
+				switch c.Op {
+				case token.LEQ:
+					if u < hi {
+						hi = u
+					}
+				case token.LSS:
+					if u == 0 {
+						hi, lo = 0, 1
+					} else if u-1 < hi {
+						hi = u - 1
+					}
+				case token.GTR:
+					if u+1 > lo {
+						lo = u + 1
+					}
+				case token.GEQ:
+					if u > lo {
+						lo = u
+					}
+				default:
+					undec = "unexpected comparison in the back-length function"
+					return
+				}
+			}
+			b, ok := core.Unwrap(ret.Results[0]).(*ssa.BinOp)
+			if !ok || b.Op != token.ADD || core.Unwrap(b.X) != ssa.Value(p) {
+				undec = "the back-length function must return its argument plus a constant size"
+				return
+			}
+			k, ok := core.ConstInt(b.Y)
+			if !ok {
+				undec = "the back-length function must return its argument plus a constant size"
+				return
+			}
+			if lo <= hi {
+				got = append(got, piece{lo, hi, k})
+			}
+		})
+		sort.Slice(got, func(i, j int) bool { return got[i].lo < got[j].lo })
+		want := []piece{{0, 127, 1}, {128, 16382, 2}, {16383, 2097150, 3}, {2097151, 268435454, 4}, {268435455, 1<<32 - 1, 5}}
+		same := len(got) == len(want)
+		if same {
+			for i := range got {
+				if got[i] != want[i] {
+					same = false
+				}
+			}
+		}
+		if undec != "" {
+			r.Undecided("lpEncodeBacklen/size-table", f.Pos(), "%s", undec)
+		} else {
+			r.Check(same, "lpEncodeBacklen/size-table", f.Pos(), "the back-length of a listpack entry of total size l takes 1 byte for l<=127, 2 for l<16383, 3 for l<2097151, 4 for l<268435455, else 5 (listpack.c); found pieces %v: an entry of a boundary size would be stepped over by the wrong amount and every following element misread", got)
+		}
+	}
+	if f := fn(w, r, "(*pkg/redis/types.Listpack).Next"); f != nil {
+		// encoding (mask, value) -> header bytes, and whether a payload length is added
+		type enc struct {
+			hdr  int64
+			plus bool
+		}
+		want := map[[2]int64]enc{{0x80, 0x00}: {1, false}, {0xC0, 0x80}: {1, true}, {0xE0, 0xC0}: {2, false}, {0xF0, 0xE0}: {2, true},
+			{0xFF, 0xF0}: {5, true}, {0xFF, 0xF1}: {3, false}, {0xFF, 0xF2}: {4, false}, {0xFF, 0xF3}: {5, false}, {0xFF, 0xF4}: {9, false}}
+		seen := map[[2]int64]bool{}
+		var bad []string
+		for _, s := range core.SitesNamed(f, false, "pkg/redis/types.lpEncodeBacklen") {
+			var key [2]int64
+			found := false
+			facts := core.FactsAt(s.Instr.Block())
+			for i := len(facts) - 1; i >= 0 && !found; i-- {
+				fct := facts[i]
+				cmp, ok := core.AsCmp(fct.Cond, fct.Val)
+				if !ok || cmp.Op != token.EQL {
+					continue
+				}
+				and, ok := cmp.X.(*ssa.BinOp)
+				if !ok || and.Op != token.AND {
+					continue
+				}
+				m, ok1 := core.ConstInt(and.Y)
+				en, ok2 := core.ConstInt(cmp.Y)
+				if ok1 && ok2 {
+					key, found = [2]int64{m, en}, true
+				}
+			}
+			if !found {
+				bad = append(bad, "a step whose encoding test was not recognised at "+w.Pos(s.Pos()))
+				continue
+			}
+			wt, known := want[key]
+			if !known {
+				bad = append(bad, fmt.Sprintf("unknown encoding mask/value %#x/%#x", key[0], key[1]))
+				continue
+			}
+			seen[key] = true
+			a := core.Unwrap(s.Args()[0])
+			var hdr int64 = -1
+			plus := false
+			if c, ok := core.ConstInt(a); ok {
+				hdr = c
+			} else if b, ok := a.(*ssa.BinOp); ok && b.Op == token.ADD {
+				if c, ok := core.ConstInt(b.X); ok {
+					hdr, plus = c, true
+				} else if c, ok := core.ConstInt(b.Y); ok {
+					hdr, plus = c, true
+				}
+			}
+			if hdr != wt.hdr || plus != wt.plus {
+				bad = append(bad, fmt.Sprintf("encoding %#x/%#x steps over %d header byte(s) (payload added: %v), the format has %d (payload added: %v)", key[0], key[1], hdr, plus, wt.hdr, wt.plus))
+			}
+		}
+		for k := range want {
+			if !seen[k] {
+				bad = append(bad, fmt.Sprintf("encoding %#x/%#x is not stepped over", k[0], k[1]))
+			}
+		}
+		sort.Strings(bad)
+		r.Check(len(bad) == 0, "Listpack.Next/entry-size", f.Pos(), "every listpack encoding must advance the cursor by its header size (+ payload length for strings) + back length: %v", bad)
+	}
 }
